@@ -67,6 +67,7 @@ def check(out, report, count):
     restart_born = set()
     hoston_open = {}          # issuer pid -> (Q ev)
     host_of = {}
+    creq = {}                 # pid -> log line of the request (create / hoston) that created it
     for e in evs:
         k, f = e.kind, e.f
         if k == "C":
@@ -75,6 +76,9 @@ def check(out, report, count):
             host_of[pid] = h
             if ppid == 0 and any(int(q.f[3]) == h for q in hoston_open.values()):
                 restart_born.add(pid)
+                creq[pid] = min(q.i for q in hoston_open.values() if int(q.f[3]) == h)
+            elif ppid in pendq and pendq[ppid].f[2] == "create":
+                creq[pid] = pendq[ppid].i
         elif k == "T":
             term[int(f[0])] = e
         elif k == "B":
@@ -112,6 +116,25 @@ def check(out, report, count):
     def alive_at(pid, i):
         return pid in born and born[pid].i < i and (pid not in term or term[pid].i > i)
 
+    # ---------------------------------------------------------------- actors that never terminate although a kill reached them
+    for q, r in pairs:
+        n = q.f[2]
+        if n not in ("kill", "killall", "hostoff") or r is None or (n == "hostoff" and q.f[4] != "1"):
+            continue
+        for v in actors:
+            if v in term or v == int(q.f[0]) or not alive_at(v, r.i):
+                continue
+            # Requests issued in one scheduling round are served in the order in which they were logged: an actor whose creation
+            # was requested before the kill_all exists when the kill_all is served. A creation on a host that is already off fails,
+            # so whoever was created on the host before the host-off request returned was created before it was served.
+            if (n == "kill" and int(q.f[3]) == v and born[v].i < q.i) or (n == "killall" and creq.get(v, born[v].i) < q.i) or \
+               (n == "hostoff" and host_of.get(v) == int(q.f[3]) and born[v].i < r.i):
+                started = v in bodyline and bodyline[v].i < q.i
+                report("C11:kill:never-terminated:%s" % ("victim-running" if started else "victim-created-in-the-same-round"),
+                       "%s issued by actor %s at %g returned, but victim %d (created at %g%s) never terminates: no on_exit callback, no termination signal%s"
+                       % (n, q.f[0], q.clk, v, born[v].clk, "" if started else ", its body had not started yet",
+                          ", deadlock reported at the end of the run" if any(e.kind == "DL" for e in evs) else ""))
+                return feats
     # ---------------------------------------------------------------- nothing runs after its termination signal
     for e in evs:
         if e.kind in ("Q", "R", "M", "X", "B", "Z", "E") and e.f:
@@ -428,25 +451,54 @@ def check(out, report, count):
             count("deaths." + why[0])
     count("deaths.graceful", len([p for p in actors if p in zline]))
     # ---------------------------------------------------------------- RESTART
-    registered = {}           # host -> list of script ids
+    definite, possible = {}, {}          # host -> list of (line, script)
     seen_reg = set()
-    for e in evs:
-        if e.kind == "R" and len(e.f) > 2 and e.f[2] == "autorestart":
-            pid = int(e.f[0])
+    for q, r in pairs:
+        if q.f[2] == "autorestart":
+            pid = int(q.f[0])
             if pid in born and pid not in restart_born and pid not in seen_reg:
                 seen_reg.add(pid)
-                registered.setdefault(host_of[pid], []).append((e.i, int(born[pid].f[2])))
+                # no return logged = the actor was killed in the round of its request, which may or may not have been served
+                (definite if r is not None else possible).setdefault(host_of[pid], []).append((q.i, int(born[pid].f[2])))
+    for e in evs:
+        if e.kind == "R" and e.f[1] == "-1" and e.f[2] == "autorestart":
+            pid = int(e.f[0])
+            seen_reg.add(pid)
+            definite.setdefault(host_of[pid], []).append((e.i, int(born[pid].f[2])))
+    groups = []                          # requests to turn on one host whose [request, return] windows overlap
     for q, r in pairs:
-        if q.f[2] == "hoston" and q.f[4] == "0" and r is not None:
+        if q.f[2] == "hoston" and q.f[4] == "0":
             h = int(q.f[3])
-            exp = sorted(k for (i, k) in registered.get(h, []) if i < q.i)
-            got = sorted(int(c.f[2]) for p, c in born.items() if p in restart_born and q.i < c.i < r.i and host_of[p] == h)
-            if exp or got:
-                count("restart.reboots_with_auto_restart")
-                count("restart.actors_restarted", len(got))
-            if exp != got:
-                report("C11:restart:%s" % ("missing" if len(got) < len(exp) else "extra"), "host %d rebooted at %g: scripts %r asked for auto-restart there, scripts %r were re-created" % (h, q.clk, exp, got))
-                return feats
-            if got:
-                feats["restart"] += 1
+            if groups and groups[-1][0] == h and groups[-1][2] is not None and q.i < groups[-1][2]:
+                groups[-1][1].append((q, r))
+                groups[-1][2] = None if r is None else max(groups[-1][2], r.i)
+            else:
+                groups.append([h, [(q, r)], None if r is None else r.i])
+    for h, reqs, last in groups:
+        if last is None:
+            continue                     # an issuer died in the round of its request: unknown whether it was served
+        first = reqs[0][0]
+        must = sorted(k for (i, k) in definite.get(h, []) if i < first.i)
+        may = sorted(k for (i, k) in possible.get(h, []) if i < first.i)
+        got = sorted(int(c.f[2]) for p, c in born.items() if p in restart_born and first.i < c.i < last and host_of[p] == h)
+        if must or got:
+            count("restart.reboots_with_auto_restart")
+            count("restart.actors_restarted", len(got))
+        rest = list(got)
+        missing = []
+        for k in must:
+            if k in rest:
+                rest.remove(k)
+            else:
+                missing.append(k)
+        for k in may:
+            if k in rest:
+                rest.remove(k)
+        if missing or rest:
+            report("C11:restart:%s%s" % ("missing" if missing else "extra", ":concurrent-turn_on" if len(reqs) > 1 else ""),
+                   "host %d turned on at %g by %d request(s) issued in the same scheduling round: scripts %r (+ maybe %r) asked for auto-restart there, scripts %r were re-created"
+                   % (h, first.clk, len(reqs), must, may, got))
+            return feats
+        if got:
+            feats["restart"] += 1
     return feats
